@@ -13,6 +13,7 @@ import (
 	"context"
 	"encoding/json"
 	"fmt"
+	"hash/fnv"
 	"math"
 	"os"
 	"sort"
@@ -191,16 +192,44 @@ type c14FuncInfo struct {
 	Loss []string `json:"loss,omitempty"`
 }
 
+// c14SessObs: what one "session" step of a history did - the data globals the ending session held (those its
+// auto-save writes: printed form within the limit) against the fresh session after its auto-load.
+type c14SessObs struct {
+	Step    int           `json:"step"`
+	SaveErr string        `json:"saveerr,omitempty"` // repl.AutoSave failed
+	LoadErr string        `json:"loaderr,omitempty"` // what repl.AutoLoad reported (lines it could not evaluate); diagnostics
+	Binds   []c14SessBind `json:"binds"`
+}
+
+type c14SessBind struct {
+	Name    string `json:"name"`
+	Old     J      `json:"old"`
+	Present bool   `json:"present"`
+	New     J      `json:"new"`
+}
+
+// c14Foreign: a named function held somewhere else than under its own name (under another name, inside a container),
+// and whether its own name is, in this session, bound to that function (Other = unbound, or bound to something else).
+type c14Foreign struct {
+	Holder string `json:"holder"`
+	Own    string `json:"own"`
+	Other  bool   `json:"other"`
+}
+
 type c14SaveRec struct {
 	ID       string        `json:"id"`
 	Lim      int           `json:"lim"`
 	SetupErr string        `json:"setuperr,omitempty"`
+	Sess     []c14SessObs  `json:"sess,omitempty"`
+	Foreign  []c14Foreign  `json:"foreign,omitempty"`
 	N        int           `json:"n"`
 	File     []byte        `json:"file"`
 	NU       int           `json:"nu"`
 	FileU    []byte        `json:"fileu,omitempty"` // the unlimited file (when lim > 0)
 	SaveExt  []byte        `json:"saveext,omitempty"`
 	SaveErr  string        `json:"saveerr,omitempty"`
+	SaveName []byte        `json:"savename,omitempty"` // what save("c14named") leaves in c14named.gr
+	NameErr  string        `json:"nameerr,omitempty"`
 	AutoSave []byte        `json:"autosave,omitempty"`
 	AutoErr  string        `json:"autoerr,omitempty"`
 	Globals  []string      `json:"globals"` // names of all top-level bindings (info.globals)
@@ -221,6 +250,7 @@ type c14LoadBind struct {
 	Name    string `json:"name"`
 	Present bool   `json:"present"`
 	Val     J      `json:"val"`
+	Own     string `json:"own,omitempty"` // a function's own name
 }
 
 type c14LoadObs struct {
@@ -239,6 +269,7 @@ type c14LoadRec struct {
 // ---------------------------------------------------------------------------------- shared helpers (children)
 
 const (
+	c14NamedFile   = "c14named.gr" // save("c14named") / load("c14named")
 	c14CallTimeout = 400 * time.Millisecond
 	c14MaxDepth    = 400
 )
@@ -663,9 +694,28 @@ func c14Worker(args []string) {
 	os.Exit(0)
 }
 
-// c14RunSteps runs a session history on s and returns the session it ends in.
-func c14RunSteps(s *eval.State, buf *bytes.Buffer, job c14Job) (*eval.State, *bytes.Buffer, error) {
+// c14SavedData: the data globals of a session that a save with the limit writes, observed structurally.
+func c14SavedData(s *eval.State, lim int) map[string]J {
+	out := map[string]J{}
+	for _, name := range c14Globals(s) {
+		if c14PreConst[name] {
+			continue
+		}
+		v, ok := c14Lookup(s, name)
+		if !ok || c14Kind(v) != "data" || (lim > 0 && len(v.Inspect()) > lim) {
+			continue
+		}
+		out[name] = objJSON(v)
+	}
+	return out
+}
+
+// c14RunSteps runs a session history on s and returns the session it ends in. A step that the real code refuses
+// (an input it rejects, an auto-load that reports lines it could not evaluate) is part of what is observed, not a
+// reason to give up the case: the model says what the session holds afterwards.
+func c14RunSteps(s *eval.State, buf *bytes.Buffer, job c14Job) (*eval.State, *bytes.Buffer, []c14SessObs, error) {
 	opts := repl.Options{All: true, NoColor: true, AutoLoad: true, AutoSave: true, MaxValueLen: job.Lim, MaxDuration: 5 * time.Second}
+	var sess []c14SessObs
 	for i, st := range job.Steps {
 		switch st.Op {
 		case "in":
@@ -674,22 +724,72 @@ func c14RunSteps(s *eval.State, buf *bytes.Buffer, job c14Job) (*eval.State, *by
 			_, _, _, _ = repl.EvalOne(context.Background(), s, st.Src, buf, o) // a rejected input changes nothing: that is the model's reading too
 		case "autosave":
 			if err := repl.AutoSave(s, opts); err != nil {
-				return s, buf, fmt.Errorf("step %d: AutoSave: %v", i, err)
+				sess = append(sess, c14SessObs{Step: i, SaveErr: err.Error(), Binds: []c14SessBind{}})
 			}
 		case "session":
+			ob := c14SessObs{Step: i, Binds: []c14SessBind{}}
 			if err := repl.AutoSave(s, opts); err != nil {
-				return s, buf, fmt.Errorf("step %d: AutoSave: %v", i, err)
+				ob.SaveErr = err.Error()
 			}
+			old := c14SavedData(s, job.Lim) // (after the auto-save: looking at a value must not be part of the history)
 			s, buf = c14NewState()
 			s.MaxValueLen = job.Lim
-			if err := repl.AutoLoad(s, opts); err != nil {
-				return s, buf, fmt.Errorf("step %d: AutoLoad: %v", i, err)
+			func() {
+				defer func() {
+					if r := recover(); r != nil {
+						ob.LoadErr = fmt.Sprintf("panic: %v", r)
+					}
+				}()
+				if err := repl.AutoLoad(s, opts); err != nil {
+					ob.LoadErr = clip(err.Error(), 300)
+				}
+			}()
+			names := make([]string, 0, len(old))
+			for n := range old {
+				names = append(names, n)
 			}
+			sort.Strings(names)
+			for _, n := range names {
+				b := c14SessBind{Name: n, Old: old[n], New: J{"t": "nil"}}
+				if v, ok := c14Lookup(s, n); ok {
+					b.Present, b.New = true, objJSON(v)
+				}
+				ob.Binds = append(ob.Binds, b)
+			}
+			sess = append(sess, ob)
 		default:
-			return s, buf, fmt.Errorf("step %d: unknown op %q", i, st.Op)
+			return s, buf, sess, fmt.Errorf("step %d: unknown op %q", i, st.Op)
 		}
 	}
-	return s, buf, nil
+	return s, buf, sess, nil
+}
+
+// c14NamedFns: the named functions a value holds, at any depth (elements, map keys and values).
+func c14NamedFns(o object.Object, depth int, f func(fn object.Function)) {
+	o = object.Value(o)
+	switch o.Type() { //nolint:exhaustive // only these hold functions
+	case object.FUNC:
+		if fn := o.(object.Function); fn.Name != nil {
+			f(fn)
+		}
+	case object.ARRAY:
+		if depth > 6 {
+			return
+		}
+		for _, e := range object.Elements(o) {
+			c14NamedFns(e, depth+1, f)
+		}
+	case object.MAP:
+		if depth > 6 {
+			return
+		}
+		m := o.(object.Map)
+		for _, k := range object.Elements(o) {
+			c14NamedFns(k, depth+1, f)
+			v, _ := m.Get(k)
+			c14NamedFns(v, depth+1, f)
+		}
+	}
 }
 
 func c14Save(job c14Job) (rec c14SaveRec) {
@@ -726,12 +826,13 @@ func c14Save(job c14Job) (rec c14SaveRec) {
 	}
 	if len(job.Steps) > 0 {
 		var err error
-		if s, buf, err = c14RunSteps(s, buf, job); err != nil {
+		if s, buf, rec.Sess, err = c14RunSteps(s, buf, job); err != nil {
 			rec.SetupErr = err.Error()
 			return rec
 		}
 	}
-	// the file the history left behind (an auto-save that finds nothing changed since keeps it)
+	// the file the history left behind: save() below writes over it, and an auto-save that finds nothing changed
+	// since keeps it
 	left, leftErr := os.ReadFile(repl.AutoSaveFile)
 	rec.Globals = c14Globals(s)
 	// the bytes: State.SaveGlobals with the limit, without it, through save() and through repl.AutoSave
@@ -751,13 +852,24 @@ func c14Save(job c14Job) (rec c14SaveRec) {
 		rec.FileU = fu.Bytes()
 		s.MaxValueLen = job.Lim
 	}
-	_ = os.Remove(repl.AutoSaveFile)
+	// save() finds what the history left in the directory (a case without history: nothing, a first save)
 	if _, err, _ := c14Eval(s, "save()", 10*time.Second); err != nil {
 		rec.SaveErr = err.Error()
 	}
 	rec.SaveExt, err = c14ReadFileAndRemove(repl.AutoSaveFile)
 	if err != nil && rec.SaveErr == "" {
 		rec.SaveErr = err.Error()
+	}
+	// the same into a file with a name; what an earlier save left there is what the history left in ./.gr
+	if leftErr == nil {
+		_ = os.WriteFile(c14NamedFile, left, 0o644)
+	}
+	if _, err, _ := c14Eval(s, `save("c14named")`, 10*time.Second); err != nil {
+		rec.NameErr = err.Error()
+	}
+	rec.SaveName, err = c14ReadFileAndRemove(c14NamedFile)
+	if err != nil && rec.NameErr == "" {
+		rec.NameErr = err.Error()
 	}
 	if leftErr == nil {
 		_ = os.WriteFile(repl.AutoSaveFile, left, 0o644)
@@ -774,6 +886,9 @@ func c14Save(job c14Job) (rec c14SaveRec) {
 	}
 	if rec.AutoSave == nil {
 		rec.AutoSave = []byte{}
+	}
+	if rec.SaveName == nil {
+		rec.SaveName = []byte{}
 	}
 	// what the saving session holds, and how its functions behave
 	var plan []string
@@ -800,6 +915,19 @@ func c14Save(job c14Job) (rec c14SaveRec) {
 		if pre, isPre := c14Pre[name]; isPre && pre == ins {
 			continue // an untouched pre-seeded binding: compared as a value, not called
 		}
+		c14NamedFns(o, 0, func(fn object.Function) {
+			own := fn.Name.Literal()
+			if _, top := o.(object.Function); top && own == name {
+				return // bound under its own name
+			}
+			fo := c14Foreign{Holder: name, Own: own, Other: true}
+			if o2, ok := c14Lookup(s, own); ok {
+				if f2, isF := o2.(object.Function); isF && f2.Name != nil && f2.Inspect() == fn.Inspect() {
+					fo.Other = false
+				}
+			}
+			rec.Foreign = append(rec.Foreign, fo)
+		})
 		if b.Kind == "func" || b.Kind == "mixed" {
 			c14FuncPaths(name, o, 0, func(path string, fn object.Function) {
 				fi := c14FuncInfo{Path: path, Faithful: c14Faithful(fn), Closure: rootEnv != nil && fn.Env != rootEnv,
@@ -844,6 +972,9 @@ func c14Observe(s *eval.State, buf *bytes.Buffer, job c14LoadJob, loadErr error)
 		b := c14LoadBind{Name: name, Present: ok, Val: J{"t": "nil"}}
 		if ok {
 			b.Val = objJSON(v)
+			if f, isF := v.(object.Function); isF && f.Name != nil {
+				b.Own = f.Name.Literal()
+			}
 		}
 		o.Binds = append(o.Binds, b)
 	}
@@ -885,9 +1016,17 @@ func c14Load(job c14LoadJob) (rec c14LoadRec) {
 		err = repl.AutoLoad(s1, repl.Options{AutoLoad: true, MaxValueLen: job.Lim})
 	}()
 	rec.A = c14Observe(s1, b1, job, err)
-	// (b) a fresh session evaluates load(): the whole file as one program
+	// (b) a fresh session evaluates load(): the whole file as one program - for every other case from a file with a name
 	s2, b2 := c14NewState()
-	_, err, _ = c14Eval(s2, "load()", 20*time.Second)
+	loadSrc := "load()"
+	if h := fnv.New32a(); true {
+		_, _ = h.Write([]byte(job.ID))
+		if h.Sum32()%2 == 1 && os.WriteFile(c14NamedFile, job.File, 0o644) == nil {
+			loadSrc = `load("c14named")`
+			defer os.Remove(c14NamedFile)
+		}
+	}
+	_, err, _ = c14Eval(s2, loadSrc, 20*time.Second)
 	rec.W = c14Observe(s2, b2, job, err)
 	return rec
 }
